@@ -181,8 +181,10 @@ theorem commonDiff_static (w : World) (pts qts : Int) :
   unfold World.commonDiff
   split
   · exact ⟨rfl, rfl, rfl, rfl⟩
-  · simp only
-    split <;> exact ⟨rfl, rfl, rfl, rfl⟩
+  · split
+    · exact ⟨rfl, rfl, rfl, rfl⟩
+    · simp only
+      split <;> exact ⟨rfl, rfl, rfl, rfl⟩
 
 theorem commonDiff_log (w : World) (pts qts : Int) : (w.commonDiff pts qts).1.log = w.log :=
   (commonDiff_static w pts qts).1
@@ -202,6 +204,8 @@ theorem commonDiff_diff (w : World) (pts qts : Int) (msgs enc others : List Entr
     q = (if slice then lastPos qts (fun e => e.seqKey == some 1) part
          else max (lastPos qts (fun e => e.seqKey == some 1) part) w.serverQts) := by
   unfold World.commonDiff at h
+  split at h
+  · simp at h
   split at h
   · simp at h
   · rename_i htl
@@ -381,18 +385,23 @@ theorem chanDiff_static (w : World) (c : Nat) (pts : Int) :
   unfold World.chanDiff
   split
   · exact ⟨rfl, rfl, rfl, rfl⟩
-  · simp only
-    split <;> exact ⟨rfl, rfl, rfl, rfl⟩
+  · split
+    · exact ⟨rfl, rfl, rfl, rfl⟩
+    · simp only
+      split <;> exact ⟨rfl, rfl, rfl, rfl⟩
 
 theorem chanDiff_cases (w : World) (c : Nat) (pts : Int) :
     let cand := w.happened.filter fun e : Entry => e.seqKey == some (2 + c) && decide (e.pos > pts)
     let part := (cut w.chSlice cand).1
-    (∃ p, (w.chanDiff c pts).2 = .tooLong p) ∨
+    (w.chanDiff c pts).2 = .error ∨ (∃ p, (w.chanDiff c pts).2 = .tooLong p) ∨
     ((w.chanDiff c pts).2 = .empty (max pts (w.serverChan c)) ∧ cand = []) ∨
     ((w.chanDiff c pts).2 = .diff (part.filter (·.kind == .chmsg)) (part.filter (·.kind == .chother) ++ w.extrasOf (2 + c))
         (if part.isEmpty then max pts (w.serverChan c) else lastPos pts (fun _ => true) part)
         (!(cut w.chSlice cand).2)) := by
   unfold World.chanDiff
+  split
+  · left; rfl
+  right
   split
   · left; exact ⟨_, rfl⟩
   · right
